@@ -1,6 +1,114 @@
+/-
+  Rtcp.Spec.Wire — the wire layouts prescribed by the RFCs, written declaratively and independently of the Go code:
+  a packet is a list of *groups* of MSB-first bit fields `(width, value)`, each group a whole number of octets,
+  followed (for variable parts) by raw octets. Transcribed from the RFC diagrams (3550 §6.4–6.7, 4585 §6.2–6.3,
+  5104 §4.3.1, 6051 §7); reserved and padding bits are zero.
+  XR (RFC 3611) is specified through its field tables in Proofs/C15 (`rfcLayout`).
+-/
 import Rtcp.Model.Datagram
+import Rtcp.Model.WF
 namespace Rtcp.Spec
 open Rtcp
-/-- placeholder until the RFC wire spec lands: the model encoder -/
-def encOrWire (p : Packet) : Out Bytes := p.enc
+
+/-- one wire element -/
+inductive El where
+  | bits (fields : List (Nat × Nat))   -- MSB-first bit fields; total width a multiple of 8
+  | raw (b : Bytes)                    -- octets copied verbatim (text, extensions, application data)
+  | zeros (n : Nat)                    -- n zero octets (padding, reserved)
+  deriving Repr
+
+def totalBits (fs : List (Nat × Nat)) : Nat := (fs.map (·.1)).sum
+
+/-- positional value of MSB-first fields -/
+def groupVal : List (Nat × Nat) → Nat
+  | [] => 0
+  | (w, v) :: fs => v * 2 ^ totalBits fs + groupVal fs
+
+/-- n octets, big endian -/
+def beBytes : Nat → Nat → Bytes
+  | 0, _ => []
+  | n + 1, x => byte (x / 256 ^ n) :: beBytes n x
+
+def El.render : El → Bytes
+  | .bits fs => beBytes (totalBits fs / 8) (groupVal fs)
+  | .raw b => b
+  | .zeros n => List.replicate n 0
+
+def render (els : List El) : Bytes := (els.map El.render).flatten
+
+/-! ### RFC 3550 §6.1 common header -/
+def header (p : Bool) (count pt words : Nat) : El :=
+  .bits [(2, 2), (1, if p then 1 else 0), (5, count), (8, pt), (16, words)]
+
+/-! ### RFC 3550 §6.4.1 report block -/
+def reportBlock (r : ReceptionReport) : El :=
+  .bits [(32, r.ssrc), (8, r.fractionLost), (24, r.totalLost), (32, r.lastSeq), (32, r.jitter), (32, r.lastSR), (32, r.delay)]
+
+def pad4 (n : Nat) : Nat := (4 - n % 4) % 4
+
+/-- SR: header, sender info, report blocks, profile-specific extensions (a whole number of words) -/
+def sr (v : SenderReport) : List El :=
+  let size := 28 + 24 * v.reports.length + v.ext.length
+  [header false v.reports.length 200 (size / 4 - 1),
+   .bits [(32, v.ssrc), (64, v.ntpTime), (32, v.rtpTime), (32, v.packetCount), (32, v.octetCount)]] ++
+  v.reports.map reportBlock ++ [.raw v.ext]
+
+/-- RR: header, sender SSRC, report blocks, extensions zero-padded to a word -/
+def rr (v : ReceiverReport) : List El :=
+  let size := 8 + 24 * v.reports.length + v.ext.length + pad4 v.ext.length
+  [header false v.reports.length 201 (size / 4 - 1), .bits [(32, v.ssrc)]] ++
+  v.reports.map reportBlock ++ [.raw v.ext, .zeros (pad4 v.ext.length)]
+
+/-- SDES §6.5: per chunk SSRC, items (type, length, text), a null octet, then nulls to the next word -/
+def sdesItem (i : SDESItem) : List El := [.bits [(8, i.type), (8, i.text.length)], .raw i.text]
+def sdesChunkLen (c : SDESChunk) : Nat := 4 + (c.items.map fun i => 2 + i.text.length).sum + 1
+def sdesChunk (c : SDESChunk) : List El :=
+  [.bits [(32, c.source)]] ++ c.items.flatMap sdesItem ++ [.zeros 1, .zeros (pad4 (sdesChunkLen c))]
+def sdes (v : SourceDescription) : List El :=
+  let size := 4 + (v.chunks.map fun c => sdesChunkLen c + pad4 (sdesChunkLen c)).sum
+  [header false v.chunks.length 202 (size / 4 - 1)] ++ v.chunks.flatMap sdesChunk
+
+/-- BYE §6.6: sources, optional length-prefixed reason, zero padded -/
+def bye (v : Goodbye) : List El :=
+  let body := 4 * v.sources.length + (if v.reason.length > 0 then 1 + v.reason.length else 0)
+  [header false v.sources.length 203 ((4 + body + pad4 body) / 4 - 1)] ++ v.sources.map (fun s => .bits [(32, s)]) ++
+  (if v.reason.length > 0 then [.bits [(8, v.reason.length)], .raw v.reason] else []) ++ [.zeros (pad4 body)]
+
+/-- APP §6.7 (data a whole number of words) -/
+def app (v : ApplicationDefined) : List El :=
+  [header false v.subType 204 ((12 + v.data.length) / 4 - 1), .bits [(32, v.ssrc)], .raw v.name, .raw v.data]
+
+/-- RFC 4585 §6.1 feedback header + §6.2.1 generic NACK FCI -/
+def fb (fmt pt words sender media : Nat) : List El :=
+  [header false fmt pt words, .bits [(32, sender), (32, media)]]
+def nack (v : TransportLayerNack) : List El :=
+  fb 1 205 (2 + v.nacks.length) v.sender v.media ++ v.nacks.map fun n => .bits [(16, n.packetID), (16, n.lost)]
+/-- RFC 6051 §7 rapid resynchronisation request, RFC 4585 §6.3.1 PLI: no FCI -/
+def rrr (v : RapidResync) : List El := fb 5 205 2 v.sender v.media
+def pli (v : PictureLossIndication) : List El := fb 1 206 2 v.sender v.media
+/-- RFC 5104 §4.3.1 FIR: SSRC, sequence number, 24 reserved bits -/
+def fir (v : FullIntraRequest) : List El :=
+  fb 4 206 (2 + 2 * v.fir.length) v.sender v.media ++ v.fir.map fun e => .bits [(32, e.ssrc), (8, e.seq), (24, 0)]
+/-- RFC 4585 §6.3.2 SLI: payload-specific feedback (PT 206), FMT 2; First 13, Number 13, PictureID 6 -/
+def sli (v : SliceLossIndication) : List El :=
+  fb 2 206 (2 + v.sli.length) v.sender v.media ++ v.sli.map fun e => .bits [(13, e.first), (13, e.number), (6, e.picture)]
+
+end Rtcp.Spec
+
+namespace Rtcp.Spec
+open Rtcp
+/-- what the C03 correspondence compares the implementation against: the RFC layout where one is specified here
+(and the value is well-formed), the model encoder otherwise -/
+def encOrWire (p : Packet) : Out Bytes :=
+  match p with
+  | .sr v => if v.WF then .ok (render (sr v)) else p.enc
+  | .rr v => if v.WF then .ok (render (rr v)) else p.enc
+  | .sdes v => if v.WF then .ok (render (sdes v)) else p.enc
+  | .bye v => if v.WF then .ok (render (bye v)) else p.enc
+  | .app v => if v.WF then .ok (render (app v)) else p.enc
+  | .nack v => if v.WF then .ok (render (nack v)) else p.enc
+  | .rrr v => if v.WF then .ok (render (rrr v)) else p.enc
+  | .pli v => if v.WF then .ok (render (pli v)) else p.enc
+  | .fir v => if v.WF then .ok (render (fir v)) else p.enc
+  | _ => p.enc      -- SLI: known finding KF-SLI-PT (the library emits PT 205); REMB/TWCC/CCFB/XR: model encoder
 end Rtcp.Spec
